@@ -101,6 +101,8 @@ void sim_point_user(void);
 size_t sim_describe(char* buf, size_t cap);
 // write the last `last_n` schedule points (flight recorder) to fd
 void sim_dump_trace(int fd, int last_n);
+// called at the start of every simulated thread (e.g. to install an alternate signal stack)
+void sim_set_thread_start_hook(void (*fn)(void));
 // number of threads currently runnable / total alive
 int sim_count_runnable(void);
 
